@@ -471,6 +471,19 @@ def run_conv(key):
         if rho > 0 and abs(wrap(math.atan2(y, x) - math.atan2(rho, z))) > 1e-6:
             res["nontrivial"].append(digest("conv", key["rad"], name))
         res["outcomes"].append(digest(np.round([PH[i], TH[i]], 9)))
+    # whole-number points handed over as int64 arrays / Python ints are the same points
+    if np.array_equal(P, np.rint(P)):
+        Pi = P.astype(np.int64)
+        _count(res, "conv_dtype_irrelevant", 2)
+        res["n"] += 2
+        try:
+            oi = [np.asarray(v, float) for v in g.to_spherical(Pi[:, 0], Pi[:, 1], Pi[:, 2])]
+            si = [[float(np.asarray(v).ravel()[0]) for v in g.to_spherical(int(a), int(b), int(c))] for a, b, c in Pi]
+            ok = all(same(a, b) for a, b in zip(oi, (R, PH, TH))) and all(same(si[i], [R[i], PH[i], TH[i]]) for i in range(len(pts)))
+            if not ok:
+                res["viol"].append({"clause": "conv_dtype_irrelevant", "key": dict(key, form="int_input_differs_from_float_input"), "detail": {"int_array": [v.tolist()[:6] for v in oi], "float_array": [R.tolist()[:6], PH.tolist()[:6], TH.tolist()[:6]]}})
+        except Exception as e:
+            res["viol"].append({"clause": "conv_dtype_irrelevant", "key": dict(key, form="raises_" + type(e).__name__), "detail": {"exception": repr(e)[:200]}})
     G.flush()
     res["states"] = len(pts)
     res["trans"] = 3 * len(pts) + 2
